@@ -4,7 +4,7 @@ import os, shutil, subprocess, sys
 a = sys.argv[1]
 src = f"/work/{a}/verif"
 dst = "/verif"
-BASE = "34c25b3"
+BASE = "0107126"
 skip_dirs = {".lake", "__pycache__", "evidence", "replays", ".git"}
 new = []
 for root, dirs, files in os.walk(src):
